@@ -21,7 +21,7 @@ def readyQ (qs : List EQueue) (a : Nat) : List Str := readyL (qs.getD a {}).entr
 theorem readyL_cons (e : Int × Nat × Sig) (es : List (Int × Nat × Sig)) :
     readyL (e :: es) = (if e.2.2.okReady = true then [e.2.2.line] else []) ++ readyL es := by
   unfold readyL
-  by_cases h : e.2.2.okReady = true <;> simp [List.filter_cons, h]
+  by_cases h : e.2.2.okReady = true <;> simp [h]
 
 theorem readyL_append (l1 l2 : List (Int × Nat × Sig)) : readyL (l1 ++ l2) = readyL l1 ++ readyL l2 := by
   simp [readyL]
